@@ -27,7 +27,8 @@ SOURCES = ['celt/entenc.c', 'celt/entdec.c', 'celt/entcode.c', 'celt/entcode.h',
 REQUIRED_THEOREMS = ['OpusProps.C08.rng_normalised', 'OpusProps.C08.tell_frac_bounds', 'OpusProps.C08.tell_frac_formula',
                      'OpusProps.C08.tell_monotone', 'OpusProps.C08.decode_encode', 'OpusProps.C08.lockstep_rng',
                      'OpusProps.C08.decode_encode_patched', 'OpusProps.C08.done_within_budget',
-                     'OpusProps.C08.outside_untouched', 'OpusProps.C08.lockstep_symbols', 'OpusProps.C08.silk_flags_roundtrip', 'OpusProps.C08.laplace_pvq_roundtrip']
+                     'OpusProps.C08.outside_untouched', 'OpusProps.C08.lockstep_symbols', 'OpusProps.C08.silk_flags_roundtrip', 'OpusProps.C08.laplace_pvq_roundtrip',
+                     'OpusProps.C08.tell_contracts', 'OpusProps.C08.bytes_below_tell']
 UNPROVED = []
 RULE = ('op sequences of length 1..4000 over all nine operation kinds (ec_encode, ec_encode_bin, ec_enc_bit_logp, ec_enc_icdf, '
         'ec_enc_icdf16, ec_enc_uint, ec_enc_bits, ec_enc_patch_initial_bits, ec_enc_shrink) drawn from the seed by a '
@@ -45,7 +46,11 @@ NOT_COVERED = [
     'streams only (first op ec_encode_bin(fl,fl+1,n) with 1<=n<=8, patches of the same n): a patch of bits that were not '
     'coded with a power-of-two probability has no defined decoded meaning (entenc.h); other sequences containing a patch are '
     'still compared state by state against the model, checked for P2..P4 and covered by outside_untouched; the SILK usage '
-    '(first op ec_enc_icdf with a 2^-k symbol, decoder reads k separate bits) is the same interval but a different call sequence',
+    '(placeholder ec_enc_icdf symbol + patch, decoder reads k single bits) is proved (silk_flags_roundtrip) but has no '
+    'correspondence run of its own (its calls are covered op by op by rangecoder-seq)',
+    'composition with C17 (laplace_pvq_roundtrip): proved for the calls ec_laplace_encode/decode and encode_pulses/decode_pulses; '
+    'the surrounding CELT band loops (quant_coarse_energy, quant_band) are not modelled; the correspondence run rangecoder-codes '
+    'uses N <= 22, K <= 5 and Laplace pairs on the 128/64 grid, the theorem covers every reachable (N,K) and every LaplaceOk pair',
     'ec_laplace / cwrs / SILK symbol layers built on top of the coder (C09, C10, ...)',
     'the non-table `#else` variant of ec_tell_frac and USE_SMALL_DIV_TABLE (not compiled on this target)',
     'streams longer than 4000 operations and buffers larger than 1275 bytes (the Lean theorems are not length-bounded; '
